@@ -167,7 +167,7 @@ def main():
             raise Infra("sanity: M2MFmtModel (%s) should violate %s" % (nm, inv))
     runcfg = ("SPECIFICATION Spec\nCONSTANTS Msgs = {%s}\n Late = {%s}\n MaxFaults = %d\n MaxRuns = %d\n Mut = \"%s\"\n"
               "INVARIANT NoLoss\nINVARIANT OldKept\nINVARIANT AllOrNothing\nINVARIANT ExitOk\nINVARIANT ExitFail\n%sCHECK_DEADLOCK FALSE\n")
-    big = ("1, 2, 3", "4", 2, 3) if thorough else ("1, 2", "3", 1, 2)
+    big = ("1, 2, 3", "4", 2, 2) if thorough else ("1, 2", "3", 1, 2)
     res = need_ok(tlc("M2MRun", cfg("run.cfg", runcfg % (big + ("none", ""))), workers=8, timeout=1500, heap="6g"), "M2MRun")
     ck.add_tlc("M2MRun", res)
     if res.violated:
